@@ -118,7 +118,7 @@ def check_case(case, ctr):
 
 
 def run_shard(shard, tier):
-    ctr_res = e1.run_shard_generic(shard, tier, ID, check_case, variants=('pickle', 'fromdict-raw'))
+    ctr_res = e1.run_shard_generic(shard, tier, ID, check_case, variants=('pickle', 'fromdict-raw', 'used'))
     if shard[0] == 'S' and shard[1] * shard[2] <= 9:
         # third labeling with blanks / quotes / non-ASCII on the small tables
         import collections
